@@ -272,6 +272,17 @@ def keyed_publish_ok(w: Write, ef):
     return True, ''
 
 
+def _own_dict_get_is_none(e, fld) -> bool:
+    """`<x>.__dict__.get('F') is None` / `<x>.__dict__.get('F', None) is None`"""
+    if not (isinstance(e, ast.Compare) and len(e.ops) == 1 and isinstance(e.ops[0], ast.Is) and const_value(e.comparators[0], 0) is None
+            and isinstance(e.comparators[0], ast.Constant)):
+        return False
+    c = e.left
+    return (isinstance(c, ast.Call) and isinstance(c.func, ast.Attribute) and c.func.attr == 'get' and unparse(c.func.value).endswith('.__dict__')
+            and 1 <= len(c.args) <= 2 and not c.keywords and const_value(c.args[0]) == fld
+            and (len(c.args) == 1 or isinstance(c.args[1], ast.Constant) and c.args[1].value is None))
+
+
 def own_dict_cache_ok(w: Write, ef):
     """`cls.F = <value>` for a class-level field F that only this statement stores: a per-class lazy table is accepted when the store is guarded by
     `'F' not in <cls>.__dict__` (the class's OWN dictionary - a test through attribute lookup would resolve in a base class and hand a derived type its
@@ -287,6 +298,8 @@ def own_dict_cache_ok(w: Write, ef):
     fld = st.targets[0].attr
     own = any(t.kind == 'test' and lab == 'F' and isinstance(t.ast, ast.Compare) and isinstance(t.ast.ops[0], ast.In) and const_value(t.ast.left) == fld and
               unparse(dom.expand(g, t.ast.comparators[0], t)).endswith('.__dict__') for t, lab in dom.guards_of(g, node))
+    # the same test spelt `<class>.__dict__.get('F') is None` (taken when true): a stored None is recomputed, never a base class's table
+    own = own or any(t.kind == 'test' and lab == 'T' and _own_dict_get_is_none(dom.expand(g, t.ast, t), fld) for t, lab in dom.guards_of(g, node))
     if not own:
         return False, f"not guarded by `'{fld}' not in <class>.__dict__`"
     params = set(f.params[1:]) if f.cls is not None and not f.is_staticmethod else set(f.params)
